@@ -165,38 +165,60 @@ class OpsMixin:
         # incompatible kinds: fork
         return a if self.run.decide(c, "ite") else b
 
+    def under(self, cond, thunk):
+        """evaluate thunk() with `cond` temporarily added to the path condition (guards partial expressions in specs);
+        returns None when cond is infeasible"""
+        run = self.run
+        c = E.simp(cond)
+        if E.is_true(c):
+            return thunk()
+        if E.is_false(c):
+            return None
+        run.solver.push()
+        npc = len(run.pc)
+        saved = dict(run.decided)
+        try:
+            run.pc.append(c)
+            run.solver.add(c)
+            if run.check() == z3.unsat:
+                return None
+            try:
+                return thunk()
+            except E.PathEnd:
+                return None
+        finally:
+            del run.pc[npc:]
+            run.solver.pop()
+            run.decided = saved
+
     def e_BoolOp(self, node, frame):
         is_and = isinstance(node.op, ast.And)
-        if self.pure or all(self.is_simple(v) for v in node.values):
+        if self.pure:
+            # specification semantics: short-circuit by guarding later operands with the earlier ones
             vals = []
-            ok = True
-            # evaluate left to right; only combine when every operand is a VBool
-            for i, vn in enumerate(node.values):
-                if i > 0 and not self.pure and not self.is_simple(vn):
-                    ok = False
+            guard = z3.BoolVal(True)
+            for vn in node.values:
+                v = self.under(guard, lambda vn=vn: self.eval(vn, frame))
+                if v is None:
                     break
-                try:
-                    vals.append(self.eval(vn, frame))
-                except E.PyExc:
-                    if self.pure:
-                        raise
-                    ok = False
+                vals.append(v)
+                t = self.truthy(v)
+                guard = E.simp(z3.And(guard, t if is_and else z3.Not(t)))
+                if E.is_false(guard):
                     break
-                if not isinstance(vals[-1], VBool):
-                    ok = False
-                    break
-            if ok:
+            if all(isinstance(v, VBool) for v in vals):
                 ts = [v.t for v in vals]
                 return VBool(E.simp(z3.And(ts) if is_and else z3.Or(ts)))
-            if self.pure:
-                # mixed kinds in a specification: python semantics on truthiness, result as bool
-                vals = [self.eval(vn, frame) for vn in node.values]
-                # value semantics for `a or b` with non-bools: fold with ite
-                res = vals[-1]
-                for v in reversed(vals[:-1]):
-                    c = self.truthy(v)
-                    res = self.ite(c, res, v) if is_and else self.ite(c, v, res)
-                return res
+            res = vals[-1]
+            for v in reversed(vals[:-1]):
+                c = self.truthy(v)
+                res = self.ite(c, res, v) if is_and else self.ite(c, v, res)
+            return res
+        if all(self.is_simple(v) for v in node.values):
+            vals = [self.eval(vn, frame) for vn in node.values]
+            if all(isinstance(v, VBool) for v in vals):
+                ts = [v.t for v in vals]
+                return VBool(E.simp(z3.And(ts) if is_and else z3.Or(ts)))
         last = None
         for vn in node.values:
             last = self.eval(vn, frame)
